@@ -290,6 +290,35 @@ M("C18", "library-absorbs-arithmetic-error", F + "molden.py", r"        fixed_sh
 M("C18", "passthrough-in-set-order", F + "json_qcschema.py", r"    for key in parsed_keys:\n        del result\[key\]\n", "    result = {key: result[key] for key in set(result).difference(keys)}\n", "C18-R7")
 M("C19", "orca-atom-line-dropped", "iodata/inputs/orca.py", r"    if template is None:\n        template = default_template\n    if atom_line is None:\n        atom_line = default_atom_line\n", "    if template is None:\n        template, atom_line = default_template, default_atom_line\n    elif atom_line is None:\n        atom_line = default_atom_line\n", "C19-R4")
 M("C20", "eigh-overwrites-overlap", "iodata/utils.py", r"eigh\(sds, overlap\)", "eigh(sds, overlap, overwrite_b=True)", "C20-R5")
+# ----------------------------------------------------------------------------- additions (fifth round, audit-driven)
+M("C03", "fcidump-one-electron-index-not-shifted", F + "fcidump.py", r"            ii = int\(words\[1\]\) - 1\n            ij = int\(words\[2\]\) - 1\n            one_mo\[ii, ij\] = value", "            ii = int(words[1])\n            ij = int(words[2]) - 1\n            one_mo[ii, ij] = value", "C03-R1")
+M("C03", "gro-box-transposed", F + "gromacs.py", r"        cell\[0, 1\] = float\(words\[3\]\)\n        cell\[0, 2\] = float\(words\[4\]\)\n        cell\[1, 0\] = float\(words\[5\]\)", "        cell[1, 0] = float(words[3])\n        cell[2, 0] = float(words[4])\n        cell[0, 1] = float(words[5])", "C03-R13")
+M("C03", "json-stdout-into-stderr", F + "json_qcschema.py", r'        extra_dict\["stdout"\] = result\["stdout"\]', '        extra_dict["stderr"] = result["stdout"]', "C03-R14")
+M("C03", "mol2-charge-only-with-nine-fields", F + "mol2.py", r"        if len\(words\) >= 9:", "        if len(words) == 9:", "C03-R15")
+M("C03", "pdb-occupancy-bfactor-swapped", F + "pdb.py", r"    occupancy = float\(line\[54:60\]\)\n    bfactor = float\(line\[60:66\]\)", "    occupancy = float(line[60:66])\n    bfactor = float(line[54:60])", "C03-R16")
+M("C03", "pdb-element-not-title-cased", F + "pdb.py", r"symbol = line\[76:78\]\.strip\(\)\.title\(\)", "symbol = line[76:78].strip()", "C03-R16")
+M("C03", "pdb-conect-by-position", F + "pdb.py", r'bonds\.append\(\[serials\[serial0\], serials\[serial1\], bond2num\["un"\]\]\)', 'bonds.append([serial0 - 1, serial1 - 1, bond2num["un"]])', "C03-R6")
+M("C01", "molekel-beta-irreps-at-norbb", F + "molekel.py", r"data\.mo\.irreps\[data\.mo\.norba :\]", "data.mo.irreps[norb:]", "C01-R14")
+M("C01", "molekel-occupations-block-of-four", F + "molekel.py", r'        occs = " "\.join\(\[f"  \{o: \.7f\}" for o in occ\[j : j \+ 5\]\]\)', '        occs = " ".join([f"  {o: .7f}" for o in occ[j : j + 4]])', "C01-R14")
+M("C01", "molekel-ecp-objects-accepted", F + "molekel.py", r"    if data\.atcorenums is not None and not np\.array_equal\(data\.atcorenums, data\.atnums\):", "    if False:", "C01-R6")
+M("C07", "message-without-line-number", "iodata/utils.py", r'    return f"\{message\} \(\{filename\}:\{lineno\}\)"', '    return f"{message} ({filename})"', "C07-R10")
+M("C07", "lineiterator-lineno-not-used", "iodata/utils.py", r"        if lineno is None:\n            lineno = file\.lineno\n        return file\.filename, lineno", "        return file.filename, lineno", "C07-R10")
+M("C19", "gaussian-template-multiplicity-first", "iodata/inputs/gaussian.py", r"\{charge\} \{spinmult\}", "{spinmult} {charge}", "C19-R7")
+M("C19", "orca-template-without-terminator", "iodata/inputs/orca.py", r"\{geometry\}\n\*\"\"\"", '{geometry}\n"""', "C19-R7")
+M("C19", "rendered-text-not-written-to-file", "iodata/inputs/common.py", r"    print\(template\.format\(\*\*fields\), file=fh\)", "    print(template.format(**fields))", "C19-R8")
+M("C19", "api-swaps-template-and-atom-line", "iodata/api.py", r"input_module\.write_input\(fh, data, template, atom_line, \*\*kwargs\)", "input_module.write_input(fh, data, atom_line, template, **kwargs)", "C19-R8")
+M("C20", "check-dm-closed-upper-bound", "iodata/utils.py", r"    if occupations\.max\(\) > occ_max \+ eps:", "    if occupations.max() >= occ_max + eps:", "C20-R4")
+M("C20", "check-dm-default-occ-max-two", "iodata/utils.py", r"eps: float = 1e-4, occ_max: float = 1\.0\)", "eps: float = 1e-4, occ_max: float = 2.0)", "C20-R4")
+M("C20", "strtobool-falsy-words-raise", "iodata/utils.py", r"    if result is None:\n        raise ValueError\(f\"'\{value\}' cannot be converted to boolean\"\)", "    if not result:\n        raise ValueError(f\"'{value}' cannot be converted to boolean\")", "C20-R2")
+M("C20", "naturals-from-ds-instead-of-sds", "iodata/utils.py", r"sds = np\.dot\(overlap\.T, np\.dot\(dm, overlap\)\)", "sds = np.dot(dm, overlap)", "C20-R5")
+M("C20", "naturals-vectors-reversed-values-not", "iodata/utils.py", r"    coeffs = evecs\[:, : coeffs\.shape\[1\]\]", "    coeffs = evecs[:, ::-1]", "C20-R5")
+T("C20", "naturals-both-reversed", "iodata/utils.py", r"    coeffs = evecs\[:, : coeffs\.shape\[1\]\]\n    occs = evals\n", "    coeffs = evecs[:, ::-1]\n    occs = evals[::-1]\n")
+M("C09", "api-drops-converted-object", "iodata/api.py", r"            data = format_module\.prepare_dump\(data, allow_changes, filename\)", "            format_module.prepare_dump(data, allow_changes, filename)", "C09-R5")
+M("C09", "api-allow-changes-default-true", "iodata/api.py", r"(def dump_one\((?:.|\n)*?)allow_changes: bool = False", "\\1allow_changes: bool = True", "C09-R6")
+M("C09", "api-always-allows-changes-for-later-frames", "iodata/api.py", r"format_module\.prepare_dump\(other, allow_changes, filename\)", "format_module.prepare_dump(other, True, filename)", "C09-R6")
+M("C08", "dump-many-checks-dump-one-list", "iodata/api.py", r"_check_required\(filename, first, format_module\.dump_many\)", "_check_required(filename, first, format_module.dump_one)", "C08-R8")
+M("C08", "xyz-dump-many-requires-less", F + "xyz.py", r'@document_dump_many\("XYZ", \["atcoords", "atnums"\]', '@document_dump_many("XYZ", ["atcoords"]', "C08-R8")
+
 # ----------------------------------------------------------------------------- additions (fourth round, batch 6)
 M("C07", "extxyz-title-parsed-after-putback", F + "extxyz.py", r"    atom_columns, title_data = _parse_title\(title_line, lit\)\n    lit\.back\(title_line\)\n    lit\.back\(atom_line\)\n", "    lit.back(title_line)\n    lit.back(atom_line)\n    atom_columns, title_data = _parse_title(title_line, lit)\n", "C07-R8")
 M("C07", "mol2-atom-loop-skips-blank-lines", F + "mol2.py", r"(    for i in range\(natoms\):\n        words = next\(lit\)\.split\(\)\n)", "\\1        if not words:\n            continue\n", "C07-R9")
